@@ -29,6 +29,8 @@ M = [
  ("c04-already-deleted-returns-without-sync", "C04", "src/store/mod.rs", "            self.keyspace.persist(fjall::PersistMode::SyncAll)?;\n            return Ok(());", "            return Ok(());"),
 ]
 sel = sys.argv[1] if len(sys.argv) > 1 else ""
+# evidence and replays of runs against changed trees never land in /verif
+os.environ["XSMC_OUT"] = "/tmp/xsmc-seed-out"; os.makedirs("/tmp/xsmc-seed-out", exist_ok=True)
 res = []
 for name, prop, f, old, new in M:
     if sel not in name: continue
